@@ -133,7 +133,12 @@ func genPreloadSessions(o *out, cb, root map[string]*ast.File) {
 	pdbCopies := false
 	if pdb != nil {
 		pdbFound, pdbNew = c11SessionLit(pdb.Body)
-		pdbCopies = c11CopiesUnscoped(pdb.Body)
+		// inside preloadDB only an UNCONDITIONAL copy counts (a statement of the function body itself)
+		for _, st := range pdb.Body.List {
+			if as, ok := st.(*ast.AssignStmt); ok && c11CopiesUnscoped(as) {
+				pdbCopies = true
+			}
+		}
 	}
 	// a session built in n: through preloadDB (its rule) and / or an own gorm.Session literal; an explicit copy in n adds to it.
 	// No session construction found at all: reported as (newDB = true, copies = false) so that the theorems fail loudly.
